@@ -35,6 +35,16 @@ class ModelObject:
     Subclasses may define pv_getattr/pv_getitem/pv_setitem/pv_call/pv_contains/pv_len/pv_iter/pv_binop."""
 
 
+class PvDict(dict):
+    """A dict created EMPTY by the code under verification ({} or dict()). Besides concrete keys it accepts stores
+    under symbolic keys, kept as the sequence ``sym_stores`` of (key, value) pairs (a later store to an equal key
+    wins, as in Python, so the sequence determines the dictionary). Lookup by a symbolic key is not supported."""
+
+    def __init__(self, *a, **k):
+        super().__init__(*a, **k)
+        self.sym_stores = []
+
+
 class GeneratorRun:
     """Result of a generator function whose `while True` loop was verified by induction: the values yielded in the
     generic iteration ``k`` (a symbolic integer >= 0)."""
@@ -610,6 +620,8 @@ class Interp:
         it = self.eval(st.iter, env, mod)
         if isinstance(it, SymRange):
             return self.map_loop(st, it, env, mod)
+        if isinstance(it, ModelObject) and hasattr(it, "pv_for"):
+            return it.pv_for(self, st, env, mod)  # a modelled sequence of symbolic length decides what a loop over it means
         seq = self.concrete_iter(it)
         broke = False
         for item in seq:
@@ -773,7 +785,12 @@ class Interp:
     def set_item(self, cont, idx, val):
         if isinstance(cont, dict):
             if V.is_z3(idx):
+                if isinstance(cont, PvDict) and len(cont) == 0:
+                    cont.sym_stores.append((idx, val))
+                    return
                 raise Unsupported("symbolic dict key store")
+            if isinstance(cont, PvDict) and cont.sym_stores:
+                raise Unsupported("concrete key stored into a table keyed by symbolic values")
             cont[idx] = val
         elif isinstance(cont, list):
             cont[idx] = val
@@ -875,7 +892,7 @@ class Interp:
         return set(self.e_Tuple(node, env, mod))
 
     def e_Dict(self, node, env, mod):
-        d = {}
+        d = PvDict() if not node.keys else {}
         for k, v in zip(node.keys, node.values):
             if k is None:
                 d.update(self.eval(v, env, mod))
@@ -1497,6 +1514,8 @@ def _snapshot(v):
 
 
 def same_structure(x, y):
+    if isinstance(x, dict) and isinstance(y, dict):
+        return list(x.keys()) == list(y.keys()) and all(same_structure(x[k], y[k]) for k in x) and not getattr(x, "sym_stores", None)
     if type(x) is not type(y):
         return False
     if isinstance(x, dict):
